@@ -140,6 +140,40 @@ func init() {
 			}
 		}
 
+		// archive footer size per on-disk format version, and which spans are computed from it
+		{
+			fd := findFunc(ar, "archiveFooter", "actualFooterSize")
+			if fd == nil {
+				return fmt.Errorf("archiveFooter.actualFooterSize not found")
+			}
+			var rets []string
+			ast.Inspect(fd.Body, func(n ast.Node) bool {
+				if rs, ok := n.(*ast.ReturnStmt); ok && len(rs.Results) == 1 {
+					rets = append(rets, strings.Join(strings.Fields(c.src("go/store/nbs/archive_reader.go", rs.Results[0])), " "))
+				}
+				return true
+			})
+			c.defStringList("actualFooterSizeReturns", rets)
+			cs, err := conds("go/store/nbs/archive_reader.go", ar, "archiveFooter", "actualFooterSize")
+			if err != nil {
+				return err
+			}
+			c.defStringList("actualFooterSizeConds", cs)
+			for _, n := range []string{"dataSpan", "totalIndexSpan", "metadataSpan"} {
+				f2 := findFunc(ar, "archiveFooter", n)
+				if f2 == nil {
+					return fmt.Errorf("archiveFooter.%s not found", n)
+				}
+				uses := false
+				for _, cn := range callNames(f2.Body) {
+					if cn == "f.actualFooterSize" {
+						uses = true
+					}
+				}
+				c.defBool(n+"UsesActualFooterSize", uses)
+			}
+		}
+
 		// archive footer: offsets as written (sha512.Size is 64 by the Go standard library)
 		arc, err := c.file("go/store/nbs/archive.go")
 		if err != nil {
